@@ -76,6 +76,10 @@ Fixpoint resolve_template (ls : list loader) (idx : nat) (path : str) (g : gstat
       end
   end.
 
+(* the log of a fetch that finds the name in no loader (used where if_exists swallows it) *)
+Definition log_misses (ls : list loader) (path : str) (g : gstate) : gstate :=
+  snd (resolve_template (map (fun _ => mkLoader []) ls) 0 path g).
+
 Definition toks_of (l : list atok) : list token := map a_tok l.
 Fixpoint take_code (l : list atok) : list atok * list atok :=
   match l with
@@ -612,7 +616,7 @@ Section Compile.
               let '(ifexists, rest) := match match_ident_val rest0 [105; 102; 95; 101; 120; 105; 115; 116; 115] (* if_exists *) with Some x => (true, x) | None => (false, rest0) end in
               let iname := resolve_filename (t_isstr tst) (t_name tst) fname in
               match compile_file f iname g with
-              | Err 4 => if ifexists then Ok (NIncludeEmpty, ts, st) else Err 4
+              | Err 4 => if ifexists then Ok (NIncludeEmpty, ts, (tst, log_misses (se_loaders se) iname g)) else Err 4
               | Ok (itpl, g1) =>
                   do '(pairs, only, rest') <-
                     (match match_ident_val rest [119; 105; 116; 104] (* with *) with
